@@ -269,6 +269,15 @@ class MonitorPool(Module):
         else:
             raise KeyError(f"'name' ('{name}') is not a registered observable")
 
+    def _shared(self, observed: str, monitor: Monitor) -> bool:
+        # if the monitor is also pooled (aliased) under another observable
+        return any(
+            m is monitor
+            for o, md in self.monitors_.items()
+            if o != observed
+            for m in md.values()
+        )
+
     def del_observed(self, name: str) -> None:
         r"""Deletes an added observable.
 
@@ -281,7 +290,8 @@ class MonitorPool(Module):
         """
         if name in self.monitors_:
             for monitor in self.monitors_[name].values():
-                monitor.deregister()
+                if not self._shared(name, monitor):
+                    monitor.deregister()
             del self.monitors_[name]
 
         if name in self.observed_:
@@ -383,7 +393,8 @@ class MonitorPool(Module):
             )
 
         # delete the monitor
-        self.monitors_[observed][monitor].deregister()
+        if not self._shared(observed, self.monitors_[observed][monitor]):
+            self.monitors_[observed][monitor].deregister()
         del self.monitors_[observed][monitor]
 
         # delete group if empty
